@@ -3,6 +3,8 @@ package main
 import (
 	"fmt"
 	"strings"
+
+	"golang.org/x/tools/go/ssa"
 )
 
 var surveyFns = map[string]func(*World, string){}
@@ -61,5 +63,64 @@ func init() {
 		_, scope, _ := c02Scope(w)
 		lenAtLeast = map[string]string{"len(cp.CPSUri)": "len(cp.PolicyIdentifiers)"}
 		boundsSurvey(w, scope)
+	}
+}
+
+func init() {
+	surveyFns["fresh"] = func(w *World, arg string) {
+		n := 0
+		for fn := range w.AllFuncs() {
+			if !InModule(fn) || len(fn.Blocks) == 0 || strings.HasSuffix(w.RelFile(fn.Pos()), "_test.go") {
+				continue
+			}
+			for _, r := range loopFreshness(fn) {
+				n++
+				fmt.Printf("%s %s %s: %s\n", short(FuncName(fn)), w.InstrPos(r.In), r.Kind, r.What)
+			}
+		}
+		fmt.Println("reports:", n)
+	}
+}
+
+func init() {
+	surveyFns["pure"] = func(w *World, arg string) {
+		_, scope, jsonScope := c02Scope(w)
+		sum := NewParamWriteSummary(w, scope)
+		n := 0
+		for _, fn := range jsonScope {
+			for _, p := range fn.Params {
+				if wit, ok := sum.writes[p]; ok {
+					n++
+					fmt.Printf("%s(%s): %s\n", short(FuncName(fn)), p.Name(), wit)
+				}
+			}
+		}
+		fmt.Println("params written in the JSON closure:", n, "of", len(jsonScope), "functions")
+	}
+}
+
+func init() {
+	surveyFns["pure07"] = func(w *World, arg string) {
+		var roots []*ssa.Function
+		for _, n := range []string{"(*z/x509.Certificate).Verify", "(*z/x509.Certificate).ValidateWithStupidDetail"} {
+			if fn := w.Fn(n); fn != nil {
+				roots = append(roots, fn)
+			}
+		}
+		var scope []*ssa.Function
+		for fn := range w.Reachable(roots, func(fn *ssa.Function) bool { return !InModule(fn) }) {
+			if InModule(fn) && len(fn.Blocks) > 0 && strings.HasSuffix(w.RelFile(fn.Pos()), "x509/verify.go") {
+				scope = append(scope, fn)
+			}
+		}
+		sum := NewParamWriteSummary(w, scope)
+		for _, fn := range scope {
+			for _, p := range fn.Params {
+				if wit, ok := sum.writes[p]; ok {
+					fmt.Printf("%s(%s): %s\n", short(FuncName(fn)), p.Name(), wit)
+				}
+			}
+		}
+		fmt.Println(len(scope), "functions")
 	}
 }
